@@ -8,7 +8,8 @@ from concurrent.futures import ProcessPoolExecutor
 from sa import mutants as MU
 from sa.corpus import ALL_PROPS
 
-SKIP_FUNCS = {"_log_worker", "__del__"}
+SKIP_FUNCS = {"_log_worker", "__del__", "setup_logger"}
+EXT = os.environ.get("SWEEP_EXT", "1") != "0"
 REL = {ast.Lt: ast.LtE, ast.LtE: ast.Lt, ast.Gt: ast.GtE, ast.GtE: ast.Gt, ast.Eq: ast.NotEq, ast.NotEq: ast.Eq}
 ARI = {ast.Add: ast.Sub, ast.Sub: ast.Add, ast.Mult: ast.FloorDiv, ast.LShift: ast.RShift, ast.RShift: ast.LShift, ast.BitAnd: ast.BitOr, ast.BitXor: ast.BitOr}
 
@@ -28,6 +29,30 @@ def sites(tree):
                     out.append((f.name, n, "const"))
                 elif isinstance(n, ast.If) and not n.orelse and len(n.body) == 1 and isinstance(n.body[0], (ast.Assign, ast.AugAssign, ast.Expr)):
                     out.append((f.name, n, "delif"))
+                if EXT:
+                    if isinstance(n, ast.If):
+                        out.append((f.name, n, "negif"))
+                    if isinstance(n, ast.BoolOp):
+                        out.append((f.name, n, "boolop"))
+                    if isinstance(n, ast.Call) and len(n.args) >= 2 and not any(isinstance(a, ast.Starred) for a in n.args):
+                        for i in range(len(n.args) - 1):
+                            if ast.dump(n.args[i]) != ast.dump(n.args[i + 1]):
+                                out.append((f.name, (n, i), "swapargs"))
+                    if isinstance(n, ast.Call) and isinstance(n.func, ast.Name) and n.func.id in ("min", "max"):
+                        out.append((f.name, n, "minmax"))
+                    if isinstance(n, ast.Subscript) and isinstance(n.slice, ast.Tuple) and len(n.slice.elts) >= 2 and ast.dump(n.slice.elts[0]) != ast.dump(n.slice.elts[1]):
+                        out.append((f.name, n, "swapidx"))
+                    if isinstance(n, (ast.For, ast.While, ast.If, ast.FunctionDef, ast.With, ast.Try)):
+                        for fld in ("body", "orelse"):
+                            blk = getattr(n, fld, None) or []
+                            for j, st in enumerate(blk):
+                                if isinstance(st, (ast.Assign, ast.AugAssign)) or (isinstance(st, ast.Expr) and isinstance(st.value, ast.Call)):
+                                    if len(blk) > 1:
+                                        out.append((f.name, (n, fld, j), "delstmt"))
+                    if isinstance(n, ast.UnaryOp) and isinstance(n.op, ast.Not):
+                        out.append((f.name, n, "dropnot"))
+                    if isinstance(n, ast.Constant) and isinstance(n.value, int) and not isinstance(n.value, bool) and 1 <= n.value <= 64:
+                        out.append((f.name, n, "constm1"))
     return out
 
 
@@ -35,7 +60,7 @@ def mutate(src, mod, idx):
     tree = ast.parse(src[mod])
     ss = sites(tree)
     fname, n, kind = ss[idx]
-    before = ast.unparse(n)[:70]
+    before = ast.unparse(n)[:70] if isinstance(n, ast.AST) else ""
     if kind == "rel":
         n.ops = [REL[type(n.ops[0])]()]
     elif kind in ("ari", "aug"):
@@ -44,9 +69,34 @@ def mutate(src, mod, idx):
         n.value = n.value + 1
     elif kind == "delif":
         n.test = ast.Constant(value=False)
+    elif kind == "negif":
+        n.test = ast.UnaryOp(op=ast.Not(), operand=n.test)
+    elif kind == "boolop":
+        n.op = ast.Or() if isinstance(n.op, ast.And) else ast.And()
+    elif kind == "swapargs":
+        n, i = n
+        before = ast.unparse(n)[:70]
+        n.args[i], n.args[i + 1] = n.args[i + 1], n.args[i]
+    elif kind == "minmax":
+        n.func.id = "max" if n.func.id == "min" else "min"
+    elif kind == "swapidx":
+        n.slice.elts[0], n.slice.elts[1] = n.slice.elts[1], n.slice.elts[0]
+    elif kind == "delstmt":
+        n, fld, j = n
+        st = getattr(n, fld)[j]
+        before = ast.unparse(st)[:70]
+        getattr(n, fld)[j] = ast.copy_location(ast.Pass(), st)
+        n = st
+    elif kind == "dropnot":
+        before = ast.unparse(n)[:70]
+        n.op = ast.UAdd() if False else n.op
+        n.operand = ast.UnaryOp(op=ast.Not(), operand=n.operand)
+    elif kind == "constm1":
+        n.value = n.value - 1
     out = dict(src)
     out[mod] = ast.unparse(tree) + "\n"
-    return out, "%s:%s %s `%s` -> `%s`" % (mod, fname, kind, before, ast.unparse(n)[:70]), getattr(n, "lineno", 0)
+    after = "<deleted>" if kind == "delstmt" else ast.unparse(n)[:70]
+    return out, "%s:%s %s `%s` -> `%s`" % (mod, fname, kind, before, after), getattr(n, "lineno", 0)
 
 
 def run(args):
